@@ -464,13 +464,17 @@ def _handle_fn_body(body: list[ast.stmt], ctx: Context) -> sympy.Expr | None:
                         _handle_expr(value_expr, ctx) for value_expr in node.value.elts
                     ]
                     for target, expr in zip(target_elements, value_exprs, strict=True):
-                        if isinstance(target, ast.Name):
-                            if expr is None:
-                                return None
-                            ctx.symbols[target.id] = expr
+                        if not isinstance(target, ast.Name):
+                            msg = "Only names can be targets of a tuple assignment"
+                            raise TypeError(msg)
+                        if expr is None:
+                            return None
+                        ctx.symbols[target.id] = expr
                 else:
-                    # Handle potential iterable unpacking
-                    value = _handle_expr(node.value, ctx)
+                    # a, b = e with e not written as a tuple: the targets would
+                    # keep whatever they were bound to before
+                    msg = "Unpacking of anything else than a tuple display is not implemented"
+                    raise NotImplementedError(msg)
             else:
                 # Regular single assignment
                 if not isinstance(target := node.targets[0], ast.Name):
